@@ -446,6 +446,64 @@ func checkC03(c *Ctx) {
 	}
 	ruleEventEncode(c, "C03.8")
 	ruleTrackFlush(c, "C03.8")
+	runWriteToSimRS(c, "C03.8")
 	c.Rule("C03.10", "messages built by the library's own meta constructors are well-formed events: FF, type, canonical VLQ length, payload (= C15.1) — the writer emits message bytes verbatim, so a malformed constructor result makes the file invalid", 17)
 	c.include(checkC15, map[string]string{"C15.1": "C03.10"})
+	c.Rule("C03.11", "no trailing bytes in a file written by name: every function of package smf that hands an *os.File to WriteTo obtained it from a call that yields an EMPTY file (os.Create, os.CreateTemp, os.OpenFile with constant flags containing O_TRUNC or O_CREATE|O_EXCL)", 1)
+	ruleEmptyDestination(c, "C03.11", writeTo)
+}
+
+// ruleEmptyDestination: WriteTo emits exactly the file's bytes; a by-name wrapper (WriteFile) adds trailing bytes when
+// the file it opens already holds more than that. Checked on every call of WriteTo inside the module whose destination
+// is an *os.File: the file value must be the result of a creating call that leaves the file empty.
+func ruleEmptyDestination(c *Ctx, rule string, writeTo *ssa.Function) {
+	p := c.P
+	n := 0
+	for fn := range p.All {
+		if !InModule(fn) || fn.Pkg == nil || fn.Pkg != writeTo.Pkg {
+			continue
+		}
+		for _, call := range calls(fn) {
+			if call.Common().StaticCallee() != writeTo || len(call.Common().Args) < 2 {
+				continue
+			}
+			dst := strip(call.Common().Args[1])
+			if dst == nil || dst.Type().String() != "*os.File" {
+				continue
+			}
+			n++
+			key := "destination of WriteTo in " + FuncName(fn)
+			ex, _ := dst.(*ssa.Extract)
+			var cc *ssa.Call
+			if ex != nil {
+				cc, _ = ex.Tuple.(*ssa.Call)
+			}
+			if cc == nil {
+				c.Unk(rule, key, p.Pos(call.Pos()), "the file is not the direct result of a creating call: cannot tell whether it is empty")
+				continue
+			}
+			switch q := calleeQual(cc); q {
+			case "os.Create", "os.CreateTemp":
+				c.OK(rule, key, p.Pos(cc.Pos()), q+" yields an empty file")
+			case "os.OpenFile":
+				flag, ok := constInt(cc.Common().Args[1])
+				const oCreate, oExcl, oTrunc, oAppend = 0x40, 0x80, 0x200, 0x400
+				switch {
+				case !ok:
+					c.Unk(rule, key, p.Pos(cc.Pos()), "os.OpenFile with flags that are not a constant")
+				case flag&oAppend != 0:
+					c.Bad(rule, key, p.Pos(cc.Pos()), "the file is opened with O_APPEND: the SMF is written behind whatever the file already holds")
+				case flag&oTrunc != 0 || (flag&oCreate != 0 && flag&oExcl != 0):
+					c.OK(rule, key, p.Pos(cc.Pos()), fmt.Sprintf("os.OpenFile with flags %#x yields an empty file", flag))
+				default:
+					c.Bad(rule, key, p.Pos(cc.Pos()), fmt.Sprintf("os.OpenFile with flags %#x neither truncates nor insists on a new file: when the target already holds a longer file, its tail stays behind the SMF (trailing bytes; file size differs from the size WriteTo reports)", flag))
+				}
+			default:
+				c.Unk(rule, key, p.Pos(cc.Pos()), "file obtained from "+q+": cannot tell whether it is empty")
+			}
+		}
+	}
+	if n == 0 {
+		c.Unk(rule, "by-name writer", "-", "no call of WriteTo with an *os.File destination found in package smf (WriteFile?)")
+	}
 }
